@@ -34,18 +34,42 @@ try:
     res["repo_head"] = head
     c0, o0, t0 = run([PY, demo], wt)
     res["demo_clean"] = {"exit": c0, "wall_s": t0}
+
+    def passed_tests(tag):
+        import xml.etree.ElementTree as ET
+        out_ = {}
+        for t in tests:
+            jf = f"/tmp/cs_{pid}_{k}_{tag}.xml"
+            c, o, tt = run([PY, "-m", "pytest", "-q", "-p", "no:cacheprovider", "--timeout=900", f"--junitxml={jf}", t], wt, timeout=7200)
+            ok_ = set()
+            try:
+                for tc in ET.parse(jf).iter("testcase"):
+                    if not any(ch.tag in ("failure", "error", "skipped") for ch in tc):
+                        ok_.add(tc.get("classname") + "::" + tc.get("name"))
+            except Exception:
+                pass
+            last = [l for l in o.splitlines() if " passed" in l or " failed" in l][-1:] or [o[-200:]]
+            out_[t] = (ok_, last[0][:200], tt)
+            try:
+                os.remove(jf)
+            except OSError:
+                pass
+        return out_
+
+    clean_pass = passed_tests("clean")
     subprocess.check_call(["git", "-C", wt, "apply", patch])
     c1, o1, t1 = run([PY, demo], wt)
     res["demo_patched"] = {"exit": c1, "tail": o1[-400:], "wall_s": t1}
     compiled = run([PY, "-m", "compileall", "-q", "fairlearn"], wt)[0]
     res["compiles"] = compiled == 0
     tr = []
+    patched_pass = passed_tests("patched")
     for t in tests:
-        c, o, tt = run([PY, "-m", "pytest", "-q", "-x", "-p", "no:cacheprovider", t], wt, timeout=7200)
-        last = [l for l in o.splitlines() if " passed" in l or " failed" in l or "error" in l.lower()][-1:] or [o[-200:]]
-        tr.append({"cmd": f"pytest -q -x {t}", "exit": c, "summary": last[0][:200], "wall_s": tt})
+        lost = sorted(clean_pass[t][0] - patched_pass[t][0])
+        tr.append({"cmd": f"pytest -q {t}", "exit": 0 if not lost else 1, "clean": clean_pass[t][1], "summary": patched_pass[t][1],
+                   "tests_passing_on_clean_tree": len(clean_pass[t][0]), "lost_with_patch": lost[:5], "wall_s": patched_pass[t][2]})
     res["tests"] = tr
-    ok = c0 == 0 and c1 != 0 and compiled == 0 and all(x["exit"] == 0 for x in tr)
+    ok = c0 == 0 and c1 != 0 and compiled == 0 and all(x["exit"] == 0 for x in tr) and all(x["tests_passing_on_clean_tree"] > 0 for x in tr)
     res["confirmed"] = ok
     try:
         metas = json.load(open(f"{src}/meta.json"))
